@@ -10,6 +10,18 @@ def parse_time(s):
     except (TypeError, ValueError):
         return int(datetime.datetime.fromisoformat(str(s)).replace(tzinfo=datetime.timezone.utc).timestamp())
 
+def parse_timedelta(x):
+    """str(datetime.timedelta) -> seconds, None if it does not parse"""
+    import re
+    m = re.fullmatch(r'\s*(?:(-?\d+) days?, )?(\d+):(\d\d):(\d\d)(?:\.(\d+))?\s*', str(x))
+    if not m:
+        try:
+            return float(x)
+        except (TypeError, ValueError):
+            return None
+    days = int(m.group(1) or 0)
+    return days * 86400 + int(m.group(2)) * 3600 + int(m.group(3)) * 60 + int(m.group(4)) + (float('0.' + m.group(5)) if m.group(5) else 0.0)
+
 def check_log(path, out):
     viol = []
     moves, charges, adds, cancels, pickups, dropoffs = {}, {}, 0, 0, {}, {}
@@ -46,6 +58,15 @@ def check_log(path, out):
                 wait = parse_time(r['pickup_time']) - parse_time(r['request_time'])
                 if not (0 <= wait <= timeout + delta):
                     viol.append(('pickup_wait_out_of_range', {'request': rid, 'wait_s': wait, 'timeout': timeout, 'delta': delta, 'wait_time_seconds': r.get('wait_time_seconds')}))
+                # the waiting time the record itself reports
+                rep = parse_timedelta(r.get('wait_time_seconds'))
+                if rep is None:
+                    viol.append(('reported_wait_does_not_parse', {'request': rid, 'wait_time_seconds': r.get('wait_time_seconds')}))
+                elif not (0 <= rep <= timeout + delta):
+                    viol.append(('reported_wait_out_of_range', {'request': rid, 'reported': r.get('wait_time_seconds'), 'reported_s': rep, 'timeout': timeout, 'delta': delta,
+                                                                'pickup_time': r.get('pickup_time'), 'request_time': r.get('request_time')}))
+                elif 0 <= wait < 86400 and abs(rep - wait) > 1e-6:
+                    viol.append(('reported_wait_differs_from_timestamps', {'request': rid, 'reported_s': rep, 'pickup_minus_request_s': wait}))
             elif t == 'dropoff_request_event':
                 dropoffs[r['request_id']] = dropoffs.get(r['request_id'], 0) + 1
     def close(a, b):
